@@ -163,7 +163,8 @@ class Check(PropCheck):
             for h in itertools.product(tiny, repeat=3):
                 yield self.mk(h)
         inits = [[['style', s]] for s in WHOLE] + [[['style', None]], [['STYLE', 'display:block']], [['id', 'x'], ['style', 'color: red'], ['class', 'k']],
-                                                    [['style', 'color: red'], ['style', 'float: left']], [['style', 'font-weight:bold;;COLOR : Blue ']]]
+                                                    [['style', 'color: red'], ['style', 'float: left']], [['style', 'font-weight:bold;;COLOR : Blue ']],
+                                                    [['style', '\xa0color\u3000:\u2003red\x85;\x1c']], [['style', 'a:\xa0b\xa0;left: 1\xa0px']]]
         for attrs in inits:
             for how in ('direct', 'parsed', 'clone', 'copy', 'deepcopy', 'pickle'):
                 for cv in COPY_VIEWS[:1] if how != 'direct' else COPY_VIEWS:
@@ -188,7 +189,10 @@ class Check(PropCheck):
                     it[2] = None
             elif r < 0.76:
                 it = rng.choice((['st', None], ['sa', 'style', None], ['st', 'x'], ['st', ': v'], ['st', 'a b: c d ;k:'], ['sd', 'a', 'b'],
-                                 ['sp', 'Color', 'x'], ['ss', 'Color', 'x'], ['st', 'a:b:c'], ['scp', ' x : y ; ']))
+                                 ['sp', 'Color', 'x'], ['ss', 'Color', 'x'], ['st', 'a:b:c'], ['scp', ' x : y ; '],
+                                 # white space of `str.isspace()` beyond ASCII / C's isspace: leading, trailing, inner
+                                 ['st', '\xa0color\u3000:\u2003red\x85;\x1c'], ['sa', 'style', 'a:\xa0b\xa0;c\xa0d: e'], ['sd', 'color', '\xa0red'],
+                                 ['sp', 'float', 'left\u3000'], ['scp', '\u2003x : y ;\x85'], ['ms', 'style', 'left: 1\xa0px']))
             elif r < 0.86:
                 it = rng.choice((['sa', 'id', 'x'], ['ra', 'id'], ['cn', 'a b'], ['ac', 'c'], ['rc', 'a'], ['ms', 'title', 't'], ['sa', 'a b', 'x'],
                                  ['sas', [['id', 'y'], ['style', 'color: red']]], ['dot', 'id', 'z'], ['ra', 'class']))
@@ -197,7 +201,8 @@ class Check(PropCheck):
                                           ['domkeys'], ['get', 'style'], ['has', 'style'], ['styleStr']))]
             hist.append(it)
         attrs = rng.choice(([], [], [['style', 'display: block']], [['style', ' float : left ;color:red']], [['id', 'i'], ['style', 'a:b;a:c'], ['class', 'k']],
-                            [['style', None]], [['STYLE', 'Color: RED']], [['class', 'z'], ['style', 'padding-top: 5px']]))
+                            [['style', None]], [['STYLE', 'Color: RED']], [['class', 'z'], ['style', 'padding-top: 5px']],
+                            [['style', '\xa0float\u3000: left ;\x1ccolor:red\x85']]))
         how = rng.choice(('direct', 'direct', 'parsed', 'parsed', 'clone', 'copy', 'deepcopy', 'pickle'))
         tag = rng.choice(('div', 'div', 'span', 'input', 'a'))
         cv = rng.choice(COPY_VIEWS)
